@@ -2,7 +2,7 @@ SPECIFICATION Spec
 CONSTANTS
   Names = {"a", "b"}
   Kinds = {"port", "signal", "bundle"}
-  Reserved = {"signals"}
+  Reserved = {"signals", "roles", "props"}
   Views = {"signals", "bundles"}
   Depth = 6
   HasElab = FALSE
